@@ -23,9 +23,9 @@ CLAIMS = {
     'C04': ("Decided for all inputs: the visibility predicate (Snapshot::is_committed_before_snapshot, is_tuple_visible, TupleLayout::is_valid_for_snapshot) equals the snapshot-isolation rule 'creator is the reader or committed before the reader began, deleter is neither'; TransactionCoordinator::snapshot always records an upper bound and the active/aborted sets; a lemma connects the predicate to a ghost history; repeatability (verdict is a function of snapshot and version header); TransactionCoordinator::commit never moves the snapshot horizon backwards; validate_write_set reports a conflict whenever a written tuple was committed at or after the writer's start, and otherwise stamps every written tuple with the commit timestamp it drew (first-committer-wins bookkeeping, sequential lock semantics). TupleReader::parse_for_snapshot, on the byte-level delta chain of any well-formed stored tuple: a row deleted for the reader (deleter committed before it, or the reader itself) decodes to nothing, a returned version's creator is visible to the reader and is the NEWEST such version, and nothing is returned only if no version is visible (Verus, loop invariants over the chain). Known finding: Tuple::add_version_with stamps new versions with the previous creator.",
             "Outside: that the executors call record_write (they do not today), schedules; the chain walk assumes the reader's own versions are on top (no write over another transaction's uncommitted version).",
             "Verus postconditions on verbatim-extracted functions", "4 C04, Appendix A.1"),
-    'C05': ("Decided (Kani on the real evaluator, complete over the stated domains): AND/OR/NOT are Kleene three-valued logic over all 9/3 operand combinations; =,<>,<,<=,>,>= on INT agree with integer order for every pair; NULL operands propagate through every comparison and arithmetic operator; boolean context maps NULL to false; column bindings are bounds-checked; 32-bit add/sub are exact; arithmetic on non-numerics is an error; the ORDER BY comparator is antisymmetric, transitive and follows integer order / direction for every INT/NULL key. The Pratt parser's binding-power table puts OR < AND < comparison/LIKE/IN/BETWEEN/IS < additive/|| < multiplicative, all left-associative, NOT only before IN/BETWEEN/LIKE (Verus on infix_binding_power).",
-            "Outside: IS NULL/BETWEEN/IN arms inside evaluate() (beyond the model checker's capacity here, DESIGN M15), the parser's prefix/driver code, joins, grouping, sort, DISTINCT, LIMIT, DML row addressing; induction over expression depth is stated, not machine-checked.",
-            "complete Kani harnesses (loop-free, full-domain) on the real crate", "4 C05"),
+    'C05': ("Decided (Kani on the real evaluator, complete over the stated domains): AND/OR/NOT are Kleene three-valued logic over all 9/3 operand combinations; =,<>,<,<=,>,>= on INT agree with integer order for every pair; NULL operands propagate through every comparison and arithmetic operator; boolean context maps NULL to false; column bindings are bounds-checked; 32-bit add/sub are exact; arithmetic on non-numerics is an error; the ORDER BY comparator is antisymmetric, transitive and follows integer order / direction for every INT/NULL key. The Pratt parser's binding-power table puts OR < AND < comparison/LIKE/IN/BETWEEN/IS < additive/|| < multiplicative, all left-associative, NOT only before IN/BETWEEN/LIKE (Verus on infix_binding_power); the operand of unary minus stops before every additive, comparison and boolean operator and the operand of NOT before AND/OR but after comparisons (Verus on the two arms of parse_prefix); IS [NOT] NULL, [NOT] BETWEEN, [NOT] IN (list) and [NOT] LIKE return exactly the three-valued verdict (NULL operand => NULL, otherwise negation flips it) for every operand value (Verus on the arms of evaluate and on string_like).",
+            "Outside: the Pratt driver loop (parse_expr_bp / parse_infix) and the remaining prefix arms, the recursion of evaluate() over sub-expressions (each arm is checked against an abstract value of its operands), joins, grouping, sort, DISTINCT, LIMIT, DML row addressing; induction over expression depth is stated, not machine-checked.",
+            "complete Kani harnesses (loop-free, full-domain) on the real crate + Verus contracts on extracted functions and single match arms", "4 C05"),
     'C09': ("Decided (Kani, full domain): page-zero header state that must survive close/reopen -- aborted bitmap set/test/clear exactness and frame, header construction (counters, config fields, aligned page size); reload of the bitmap returns exactly the recorded ids; a checkpoint writes the header and every dirty page and leaves an openable empty log (Verus). Pager::allocate_page / dealloc_page keep the free list recorded in page zero a well-formed chain (see C11) and every page they hand out or free is dirty or already written; every write latch marks its frame dirty before access (Verus); DmlExecutor::insert persists the incremented next-row-id of the table it inserted into.",
             "Outside: catalog rows, overflow chains across reopen, Pager::sync_header I/O; ids >= 8192 are dropped by the bitmap (recorded known finding).",
             "complete Kani harnesses + an injected Kani function contract on the real crate + Verus contracts on extracted pager functions", "4 C09"),
